@@ -570,12 +570,14 @@ Section RouteInstance.
   Qed.
 End RouteInstance.
 
-(* the guard is not empty talk: CanonicalPath is not idempotent, and a route saved under such a
-   pattern comes back under another one after flush + restart *)
-Theorem route_reload_unstable_refuted :
+(* the guard used to be needed: before the fix "CanonicalPath is idempotent" a route saved under
+   "/a /b/.." was stored as "/a " and came back as "/a" after flush + restart (the one-pass body is
+   not idempotent: CanonProofs.canonical_once_not_idem).  With the repaired CanonicalPath the same
+   pattern is stable and the reloaded table is the saved one. *)
+Theorem route_reload_unstable_fixed :
   let R := route_ops (fun _ => true) in
   let r := {| r_pat := [47;97;32;47;98;47;46;46]; r_url := [114]; r_keep := false |} in   (* "/a /b/.." *)
-  canon_stable (r_pat r) = false /\
-  m_tab (fst (fst (mrun R (restart R None, None) [MSave r; MFlush; MRestart]))) <>
+  canon_stable (r_pat r) = true /\
+  m_tab (fst (fst (mrun R (restart R None, None) [MSave r; MFlush; MRestart]))) =
   m_tab (fst (fst (mrun R (restart R None, None) [MSave r]))).
-Proof. split; [vm_compute; reflexivity|vm_compute; discriminate]. Qed.
+Proof. split; vm_compute; reflexivity. Qed.
